@@ -23,6 +23,7 @@ type Term struct {
 	QKind string   // "forall" / "exists"
 	QVars []string // "(name Sort)" entries
 	Pat   []*Term  // optional patterns
+	Multi bool     // Pat is one multi-pattern (all must match) rather than alternatives
 }
 
 // Decl is a top-level declaration printed in the preamble.
@@ -464,6 +465,15 @@ func (b *Builder) Cmp(op string, x, y *Term) *Term {
 	return b.mk(&Term{Op: op, Sort: "Bool", Args: []*Term{x, y}})
 }
 
+// QuantMulti builds a quantifier with one multi-pattern.
+func (b *Builder) QuantMulti(kind string, vars []*Term, body *Term, multi []*Term) *Term {
+	t := b.Quant(kind, vars, body, multi...)
+	if t.Op == "q" {
+		t.Multi = true
+	}
+	return t
+}
+
 // Quant builds a quantifier; vars are bound-variable terms.
 func (b *Builder) Quant(kind string, vars []*Term, body *Term, pats ...*Term) *Term {
 	if body == b.True || body == b.False {
@@ -621,7 +631,15 @@ func (p *Printer) str(t *Term, top bool) string {
 			for _, x := range t.Pat {
 				ps = append(ps, p.str(x, false))
 			}
-			body = "(! " + body + " :pattern (" + strings.Join(ps, " ") + "))"
+			if t.Multi {
+				body = "(! " + body + " :pattern (" + strings.Join(ps, " ") + "))"
+			} else {
+				ann := ""
+				for _, x := range ps {
+					ann += " :pattern (" + x + ")"
+				}
+				body = "(! " + body + ann + ")"
+			}
 		}
 		return s + body + ")"
 	case len(t.Args) == 0:
